@@ -35,6 +35,9 @@ type procSpec struct {
 	// A message flow wakes the referenced catch event - whatever it listens for.
 	ExtraDefs int  `json:"extraDefs,omitempty"`
 	ParMulti  bool `json:"parMulti,omitempty"`
+	// catcher: the catch event's message definitions name an operation
+	// (operationRef child element) besides the message
+	OpRef bool `json:"opRef,omitempty"`
 	// fanThrower: after its Pre tasks a parallel fork passes one throw event per
 	// entry of Fan at the same moment (each with a message flow to that process)
 	Fan []int `json:"fan,omitempty"`
@@ -146,12 +149,16 @@ func build(d descriptor) *built {
 		case "catcher":
 			addTasks(ps.Pre)
 			c := b.Add(gen.KCatch)
-			c.Defs = []gen.EventDef{{Kind: "message", Ref: fmt.Sprintf("msg_%d", i)}}
+			op := ""
+			if ps.OpRef {
+				op = fmt.Sprintf("op_%d", i)
+			}
+			c.Defs = []gen.EventDef{{Kind: "message", Ref: fmt.Sprintf("msg_%d", i), Op: op}}
 			for k := 0; k < ps.ExtraDefs; k++ {
 				if k%2 == 0 {
 					c.Defs = append(c.Defs, gen.EventDef{Kind: "signal", Ref: fmt.Sprintf("sigx_%d_%d", i, k)})
 				} else {
-					c.Defs = append(c.Defs, gen.EventDef{Kind: "message", Ref: fmt.Sprintf("msgx_%d_%d", i, k)})
+					c.Defs = append(c.Defs, gen.EventDef{Kind: "message", Ref: fmt.Sprintf("msgx_%d_%d", i, k), Op: op})
 				}
 			}
 			c.ParallelMul = ps.ParMulti && len(c.Defs) > 1
@@ -378,7 +385,7 @@ func runCase(d descriptor) *result {
 								if df.Kind != kind {
 									continue
 								}
-								o := x.m.Event(model.Ev{Kind: df.Kind, Ref: df.Ref})
+								o := x.m.Event(model.Ev{Kind: df.Kind, Ref: df.Ref, Op: df.Op})
 								if len(o.Fired) > 0 {
 									woke = true
 								}
@@ -690,7 +697,7 @@ func draw(rt *rapid.T) descriptor {
 		// 2..4 processes throw into ONE listening catch event (or one waiting
 		// process) at the same time: their single tasks are answered together
 		k := rapid.IntRange(2, 4).Draw(rt, "throwers")
-		tgt := procSpec{Kind: "catcher", Pre: 0, Post: rapid.IntRange(0, 1).Draw(rt, "post"), Target: -1}
+		tgt := procSpec{Kind: "catcher", Pre: 0, Post: rapid.IntRange(0, 1).Draw(rt, "post"), Target: -1, OpRef: rapid.IntRange(0, 2).Draw(rt, "operationRef") == 0}
 		if rapid.IntRange(0, 2).Draw(rt, "intoWaiting") == 0 {
 			tgt = procSpec{Kind: "waiting", Pre: rapid.IntRange(0, 2).Draw(rt, "pre"), Target: -1}
 		}
@@ -785,6 +792,9 @@ func draw(rt *rapid.T) descriptor {
 	for i := 0; i < nExec; i++ {
 		k := rapid.SampledFrom([]string{"plain", "prog", "thrower", "catcher"}).Draw(rt, "kind")
 		sp := procSpec{Kind: k, Pre: rapid.IntRange(0, 2).Draw(rt, "pre"), Post: rapid.IntRange(0, 1).Draw(rt, "post"), Target: -1}
+		if k == "catcher" {
+			sp.OpRef = rapid.IntRange(0, 2).Draw(rt, "operationRef") == 0
+		}
 		if k == "catcher" && rapid.Bool().Draw(rt, "multiDef") {
 			sp.ExtraDefs = rapid.IntRange(1, 2).Draw(rt, "extraDefs")
 			sp.ParMulti = rapid.Bool().Draw(rt, "parMulti")
